@@ -4,6 +4,7 @@ import (
 	"bytes"
 	"encoding/hex"
 	"fmt"
+	"os"
 	"runtime"
 	"strings"
 	"sync"
@@ -31,7 +32,10 @@ type blkRef struct {
 func (r blkRef) get() blk { return variant(bases()[r.Fixture], r.Salt) }
 
 func genRef(rt *rapid.T, label string) blkRef {
-	r := blkRef{Fixture: rapid.IntRange(0, len(bases())-1).Draw(rt, label+"_fixture")}
+	r := blkRef{Fixture: rapid.IntRange(0, nSmall()-1).Draw(rt, label+"_fixture")}
+	if os.Getenv("VERIF_TIER") == "thorough" && rapid.IntRange(0, 39).Draw(rt, label+"_ebb") == 0 {
+		r.Fixture = nSmall() // the 650 KiB epoch boundary block: a MsgBlock spanning ~10 segments
+	}
 	if rapid.IntRange(0, 3).Draw(rt, label+"_variantp") > 0 {
 		r.Salt = uint64(rapid.IntRange(1, 1<<20).Draw(rt, label+"_salt"))
 	}
@@ -325,7 +329,7 @@ func TestC23(t *testing.T) {
 	})
 }
 
-func runC23(rt *rapid.T, rec *evi.Recorder, cs c23Case, pc, ps rawpeer.Plan) {
+func runC23(rt tb, rec *evi.Recorder, cs c23Case, pc, ps rawpeer.Plan) {
 	log := &bfLog{}
 	log.cond = sync.NewCond(&log.mu)
 	opts := []blockfetch.BlockFetchOptionFunc{
